@@ -55,6 +55,7 @@ NoDup(s) == \A i, j \in DOMAIN s : i # j => s[i] # s[j]
 Perms(S) == {s \in [1..Cardinality(S) -> S] : \A i, j \in 1..Cardinality(S) : i # j => s[i] # s[j]}
 Min(a, b) == IF a < b THEN a ELSE b
 MaxOf(S) == CHOOSE x \in S : \A y \in S : y <= x
+AnySeq(S) == CHOOSE s \in [1..Cardinality(S) -> S] : Range(s) = S
 
 (***************************************************************************)
 (* Pinsets: a pinset is a set of entries [c |-> cid, v |-> value] with at  *)
@@ -303,10 +304,16 @@ Offline ==
     /\ ~offl.valid
     /\ offl' = [valid |-> TRUE, ps |-> IF disk.has THEN disk.ps ELSE {}]
     /\ UNCHANGED <<nsaved, disk, peer>>
+\* hraft restores the newest snapshot into the FSM (FSM.Restore = dsstate.Unmarshal).  The daemon gives
+\* Raft an empty in-memory store; the restore must not depend on that, so the store may also hold a
+\* stray pin when there is a snapshot to restore.
+StrayStores == {{}, {[c |-> "c9", v |-> "vS"]}}
 StartPeer ==
     /\ Machine = "snap" /\ UNCHANGED <<xvars, rvars, pvars>>
     /\ ~peer.up
-    /\ peer' = [up |-> TRUE, ps |-> IF disk.has THEN disk.ps ELSE {}]   \* hraft restores the newest snapshot into the (empty) FSM
+    /\ \E st0 \in StrayStores :
+          /\ st0 # {} => disk.has
+          /\ peer' = [up |-> TRUE, ps |-> IF disk.has THEN UnmarshalResult(AnySeq(disk.ps), st0) ELSE st0]
     /\ UNCHANGED <<nsaved, disk, offl>>
 SNext == (\E ps \in Pinsets : SnapSave(ps)) \/ Offline \/ StartPeer
 
